@@ -44,7 +44,8 @@ type vregThread struct {
 	resume chan bool
 	report chan vregEvent
 	Last   vregEvent
-	// stress mode (no driver): optional random yields
+	Hops   []int // C36: nodes a forwarded SpawnSingleton call currently runs on (innermost last)
+	Answer int   // C36: the coordinator the next Members() call of this thread names
 }
 
 func newVregThread(node int) *vregThread {
@@ -137,11 +138,16 @@ type vregRegistry struct {
 	nodes    []*vregCluster
 	log      []vregOp
 	logOn    bool
+	// controlled mode: a registry call made by a goroutine that is not a logical thread (the death watch's
+	// RemoveActor) becomes a pseudo thread that announces itself here and waits for the driver
+	controlled bool
+	bgArrivals chan *vregThread
+	bgBase     int
 }
 
 func newVregRegistry() *vregRegistry {
 	return &vregRegistry{grains: map[string]*internalpb.Grain{}, actors: map[string]*internalpb.Actor{},
-		hosts: map[string]int{}, leaderOf: map[int]int{}}
+		hosts: map[string]int{}, leaderOf: map[int]int{}, bgArrivals: make(chan *vregThread, 64)}
 }
 
 func (r *vregRegistry) record(node int, op, key, res string) {
@@ -375,7 +381,18 @@ func (c *vregCluster) GetActor(ctx context.Context, name string) (*internalpb.Ac
 }
 
 func (c *vregCluster) RemoveActor(ctx context.Context, name string) error {
-	if !vregPoint(ctx, "aremove") {
+	c.reg.mu.Lock()
+	controlled := c.reg.controlled
+	c.reg.mu.Unlock()
+	if vregThreadOf(ctx) == nil && controlled {
+		th := newVregThread(c.node)
+		c.reg.bgArrivals <- th
+		ok := <-th.resume
+		defer func() { th.report <- vregEvent{Finished: true} }()
+		if !ok {
+			return errVregInjected
+		}
+	} else if !vregPoint(ctx, "aremove") {
 		return errVregInjected
 	}
 	c.reg.mu.Lock()
@@ -418,6 +435,9 @@ func (c *vregCluster) Members(ctx context.Context) ([]*cluster.Peer, error) {
 	c.reg.mu.Lock()
 	defer c.reg.mu.Unlock()
 	lead := c.reg.leaderOf[c.node]
+	if t := vregThreadOf(ctx); t != nil {
+		lead = t.Answer
+	}
 	out := make([]*cluster.Peer, 0, len(c.reg.nodes))
 	for _, n := range c.reg.nodes {
 		out = append(out, &cluster.Peer{Host: n.host, PeersPort: n.peersPort, RemotingPort: n.remotingPort,
